@@ -17,7 +17,7 @@ ASSUMPTIONS = [
     'configuration differential: an unlisted user name must parse exactly like the same source with another unknown name',
 ]
 BUILTIN = ['verbatim', 'lstlisting', 'verbatimtab', 'Verbatim', 'listing']
-USER = ['foobar', 'myverb', 'myverb*']
+USER = ['foobar', 'myverb', 'myverb*', 'align']
 LEAD = re.compile(r'[ \t\n\r]*[\[{]')
 
 
@@ -28,7 +28,7 @@ def N():
 def body_symbols(n, name):
     other = 'zother'
     return ['{', '}', '[', ']', '$', '$$', '\\' + n.x, '\\begin{%s}' % n.e, '\\end{%s}' % n.e, '\\begin{%s}' % name,
-            '\\end{%s}' % other, '\\end{%sx}' % name, '\\item', '(', n.a, n.sp, '\n', '%c\n']
+            '\\end{%s}' % other, '\\end{%sx}' % name, '\\item', '(', n.a, n.sp, '\n', '%c\n', '%c\r']
 
 
 def bodies(n, name, maxlen):
@@ -144,6 +144,7 @@ def cases(tier):
     main = [('verbatim', ()), ('foobar', ('foobar',)), ('myverb*', ('myverb*',))]
     rest = [(b, ()) for b in BUILTIN[1:]] + [(b, ('foobar',)) for b in BUILTIN] + [(b, ('foobar', 'myverb')) for b in BUILTIN[:2]]
     rest += [('myverb', ('myverb',)), ('myverb', ('foobar', 'myverb')), ('foobar', ('myverb', 'foobar')), (n.e, (n.e,)),
+             ('align', ('align',)), ('equation*', ('foobar', 'equation*')),
              ('myverb*', ('foobar', 'myverb*'))]
     for name, skip in main:
         for b in bodies(n, name, deep):
